@@ -316,6 +316,36 @@ def gen_value_harnesses(entries):
     return "\n".join(out) + "\n", names
 
 
+def gen_attach(repo):
+    """statement slices of the two places that pick the operator a parenthesis group's unary chain is attached to
+    (DESIGN assumption A-attach): the `let lowest_prio_flat_op = ...;` statement of flat.rs make_expression and the
+    `let low_prio_op = match ... ;` statement of flat.rs flatten_vecs, each wrapped into a generated function that
+    returns the `bin_op.idx` of the chosen operator.  What is kept: the statement, token for token.  What is
+    dropped: everything around it (how flat_ops / depth are produced, what is appended to the chosen operator)."""
+    from weave import Source, cut_statements
+    flat = Source(repo, "src/expression/flat.rs")
+    m = re.search(r"^const DEPTH_PRIO_STEP: i64 = [^;]+;", flat.text, re.M)
+    if not m:
+        raise WeaveError("lost anchor: const DEPTH_PRIO_STEP")
+    s1 = cut_statements(flat, r"^    pub\(super\) fn make_expression<", "let lowest_prio_flat_op", "let lowest_prio_flat_op", "make_expression attach site")
+    s2 = cut_statements(flat, r"^pub fn flatten_vecs<", "let low_prio_op = match", "let low_prio_op = match", "flatten_vecs attach site")
+    out = ["// GENERATED on every run by /verif/extract/gen_tables.py (gen_attach) from /repo/src/expression/flat.rs — DO NOT EDIT.",
+           "// Statement slices of the two unary-attachment sites inside generated frames (see gen_attach's docstring).",
+           "#![allow(unused_imports, unused_mut, clippy::all)]",
+           "use exmex::verif_hooks::*;", "use smallvec::SmallVec;",
+           m.group(0),
+           "pub type FlatOpVec<T> = SmallVec<[FlatOp<T>; N_NODES_ON_STACK]>;",
+           "/// make_expression, closing parenthesis at nesting depth `depth`: the operator that receives the unary chain",
+           "pub fn attach_target_parse<T: Clone>(flat_ops: &mut FlatOpVec<T>, depth: i64) -> Option<usize> {",
+           s1.text.rstrip(),
+           "    lowest_prio_flat_op.map(|o| o.bin_op.idx)", "}",
+           "/// flatten_vecs (deep -> flat): the operator that receives the unary chain of a deep expression",
+           "pub fn attach_target_flatten<T: Clone>(flat_ops: &mut FlatOpVec<T>) -> usize {",
+           s2.text.rstrip(),
+           "    low_prio_op.bin_op.idx", "}"]
+    return "\n".join(out) + "\n"
+
+
 def write_if_changed(path, text):
     try:
         if open(path, encoding="utf-8").read() == text:
@@ -334,7 +364,18 @@ def generate(repo, outdir):
     write_if_changed(os.path.join(outdir, "gen_value_table.rs"), vt)
     write_if_changed(os.path.join(outdir, "gen_float_table.rs"), ft)
     write_if_changed(os.path.join(outdir, "vgen.rs"), vh)
-    return {"value_entries": ve, "float_entries": fe, "value_harnesses": names}
+    # the attachment-site slices only matter to C01: a lost anchor there must not leave every other check undecided
+    attach_error = None
+    try:
+        at = gen_attach(repo)
+    except WeaveError as e:
+        attach_error = str(e)
+        at = ("// GENERATED placeholder: %s\n#![allow(unused)]\nuse exmex::verif_hooks::*;\nuse smallvec::SmallVec;\n"
+              "pub type FlatOpVec<T> = SmallVec<[FlatOp<T>; N_NODES_ON_STACK]>;\n"
+              "pub fn attach_target_parse<T: Clone>(_f: &mut FlatOpVec<T>, _d: i64) -> Option<usize> { unimplemented!() }\n"
+              "pub fn attach_target_flatten<T: Clone>(_f: &mut FlatOpVec<T>) -> usize { unimplemented!() }\n") % attach_error.replace("\n", " ")
+    write_if_changed(os.path.join(outdir, "gen_attach.rs"), at)
+    return {"value_entries": ve, "float_entries": fe, "value_harnesses": names, "attach_error": attach_error}
 
 
 if __name__ == "__main__":
